@@ -51,6 +51,10 @@ def gen_B(key, op):
                 rng,
                 force={"op": op, "shape": (T, Y, X), "dtype": base["cube"]["dtype"], "layout": base["layout"], "like": like, "no_cube": True},
             )
+            # some calls are lazy: the caller thread builds a dask graph on the shared cube and
+            # computes it on its own simulated pool *while the other caller threads run*
+            if rng.random() < 0.3:
+                c["lazy"] = {"chunks": {"y": S.composition(rng, Y), "x": S.composition(rng, X)}, "workers": rng.choice([1, 2, 4])}
             if first is None:
                 first = c
             seq.append(c)
@@ -74,6 +78,10 @@ def _call_scn(base, call):
     s["params"] = call["params"]
     s["secondary"] = call["secondary"]
     s["secondary_backing"] = call["secondary_backing"]
+    s["time_chunks"] = None
+    s["lazy_call"] = call.get("lazy")
+    if call.get("lazy"):
+        s["chunks"] = call["lazy"]["chunks"]
     return s
 
 
@@ -126,7 +134,17 @@ def exec_B(case, tape=None):
                 if inside[0] > 1:
                     sim.probe("caller_threads_interleaved_in_accessor")
                 try:
-                    if True:  # warnings are silenced process-wide (catch_warnings is not thread-safe)
+                    if s.get("lazy_call"):
+                        import dask
+
+                        from . import daskexec
+
+                        get, _ex = daskexec.make_get(sim, s["lazy_call"]["workers"])
+                        lz = S.apply_op(s, S.make_lazy(s, cube), lazy=True, aux=a)
+                        (out,) = dask.compute(lz, scheduler=get)
+                        sim.probe("caller_thread_computed_lazy_graph")
+                        results[ti][ci] = (S.normalise(out), None)
+                    else:
                         results[ti][ci] = (S.normalise(S.apply_op(s, cube, lazy=False, aux=a)), None)
                 except (StepLimit, HarnessInconclusive, Deadlock):
                     raise
